@@ -260,3 +260,50 @@ func verifHarness_C01_other_outversion(n int, kind int) {
 	verifAssert(verifEqBytes(rec.buf, exp), "C01/ov/spec-layout")
 	verifReach("C01/ov")
 }
+
+// C01: the deprecated entry points are aliases: Writer.WriteFrame emits exactly what Write emits (the frame's own
+// header fields and checksum, no dialect needed), for v1 (kind 0), v2 (1) and signed v2 (2) frames.
+func verifHarness_C01_writeframe_alias(n int, kind int) {
+	compat, seq, sys, comp := verifNondetU8(), verifNondetU8(), verifNondetU8(), verifNondetU8()
+	ck := verifNondetU16()
+	payload := verifNondetBytes(n)
+	orig := make([]byte, n)
+	copy(orig, payload)
+	rec := &verifRecWriter{}
+	var fr Frame
+	var exp []byte
+	if kind == 0 {
+		id := verifNondetU8()
+		fr = &V1Frame{SequenceNumber: seq, SystemID: sys, ComponentID: comp, Checksum: ck,
+			Message: &message.MessageRaw{ID: uint32(id), Payload: payload}}
+		exp = verifSpecV1(seq, sys, comp, id, orig, ck)
+	} else {
+		id := verifNondetU32()
+		verifAssume(id < 1<<24)
+		f2 := &V2Frame{CompatibilityFlag: compat, SequenceNumber: seq, SystemID: sys, ComponentID: comp, Checksum: ck,
+			Message: &message.MessageRaw{ID: id, Payload: payload}}
+		var link byte
+		var ts uint64
+		var sigb []byte
+		if kind == 2 {
+			link = verifNondetU8()
+			ts = verifNondetU64()
+			verifAssume(ts < 1<<48)
+			sigb = verifNondetBytes(6)
+			sig := new(V2Signature)
+			copy(sig[:], sigb)
+			f2.IncompatibilityFlag = 1
+			f2.SignatureLinkID = link
+			f2.SignatureTimestamp = ts
+			f2.Signature = sig
+		}
+		fr = f2
+		exp = verifSpecV2(byte(kind-1), compat, seq, sys, comp, id, orig, ck, kind == 2, link, ts, sigb)
+	}
+	w := &Writer{ByteWriter: rec, OutVersion: V2, OutSystemID: verifNondetU8(), OutComponentID: verifNondetU8()}
+	verifAssert(w.Initialize() == nil, "C01/wf/writer-init")
+	verifAssert(w.WriteFrame(fr) == nil, "C01/wf/write-ok")
+	verifAssert(rec.calls == 1, "C01/wf/single-write-call")
+	verifAssert(verifEqBytes(rec.buf, exp), "C01/wf/spec-layout")
+	verifReach("C01/wf")
+}
